@@ -51,6 +51,14 @@ Theorem c15_exists_under_faults :
 Proof. exact (conj cs_exists_healthy (conj cs_exists_false_only_on_404 cs_exists_true_only_on_found)). Qed.
 Print Assumptions c15_exists_under_faults.
 
+(* ---- paging (cosmosdb): however the service cuts the query result into pages -- empty pages with more to
+        come included -- the stream carries every row of every page, in order, and is then closed; so the
+        Search / List theorems below, stated for the whole result, hold for every paging of it *)
+Theorem c15_paging_complete : forall conv pages rows, concat pages = rows ->
+  consume_pages conv pages = produce conv (Some rows).
+Proof. exact consume_pages_all. Qed.
+Print Assumptions c15_paging_complete.
+
 (* ---- Search: an invalid (empty) filter is rejected without a stream; otherwise the stream carries, newest
         submission first (ties in any order), exactly the stored plans matching all given filters, each once,
         with their stored projection, and is then closed; nothing else is ever sent. *)
@@ -258,3 +266,9 @@ Example ex_exists_false_on_410_is_refuted :
      TExistsFault (RStatus 410) 1 0]) = [2; 1; 10]%nat /\
   check_case (ex_case Cosmos 1 [TExistsFault (RStatus 410) 1 2; TExistsFault (RStatus 404) 1 0; TExistsFault RFailed 1 2]) = [0]%nat.
 Proof. vm_compute. split; reflexivity. Qed.
+
+(* seeded change C15-g: stopping at the first empty page loses the rows of later pages *)
+Example ex_paging_with_empty_pages :
+  map x_id (items_of (consume_pages result_of_row
+     [[ex_row 1 7 30 0 Z0 Z0]; []; [ex_row 2 7 20 100 (T 31) Z0]; []; [ex_row 3 7 10 100 (T 32) Z0]])) = [1; 2; 3]%N.
+Proof. vm_compute. reflexivity. Qed.
